@@ -1312,4 +1312,11 @@ def gen_portfolio(env, grid_freq="h", n_assets=None, mip_ok=True, market_p=0.9, 
 def clean_world(world):
     w = copy.deepcopy(world)
     w.pop("_dict_kind", None)
+    # cost guard: run-time and link constraints are built row by row over (steps per main time unit) x T; with
+    # quarter hours counted in days one set-up of such an asset takes tens of seconds - count them in hours there
+    heavy = any(a["cls"] == "LinkedAsset" or "min_runtime" in a["kw"] or "min_downtime" in a["kw"] for a in w["assets"].values())
+    if heavy:
+        for g in w["grids"].values():
+            if g["freq"] == "15min" and g["mtu"] == "d":
+                g["mtu"] = "h"
     return w
